@@ -443,6 +443,20 @@ def _abort_flag_first(ctx):
         graph, lambda c: K.callee_text(c).endswith('flag_aborted'))]
     ctx.require(moves and flags, 'hand-over and abort flag in execute',
         rule='C13.3')
+    # the tombstone of a container is consumed by its hand-over, also when
+    # the running link is already gone: every normal exit of execute answers
+    # True (a tombstone that is kept names the instance, not the container,
+    # and is replayed against the next generation when the monitor restarts)
+    rets = [n for n in graph.nodes if n.kind == 'return']
+    kept = [r for r in rets if not (
+        isinstance(r.ast.value, ast.Constant) and r.ast.value.value is True)]
+    falls = K.find_path(graph.entry, [graph.exit],
+                        cut_node=lambda n: n in rets, follow_exc=False)
+    ctx.ob('C13.3', func, kept[0] if kept else None,
+           bool(rets) and not kept and falls is None,
+           'the container tombstone is consumed on every normal exit of '
+           'execute (returns True, also when the running link is gone)',
+           construct='tombstone consumed')
     late = [f for f in flags for m in moves
             if f in C.reach_after(m, edge_ok=None)]
     ctx.ob('C13.3', func, flags[0], not late,
